@@ -4,6 +4,7 @@
 //           every ordered pair of names of model 0 (and parent-less standard units): unitsAreEquivalent (internal, validator.cpp)
 //   mode V: public route of the validator: two connected variables carrying the two units, Validator::validateModel,
 //           the MAP_VARIABLES units issue and its "multiplication factor" hint
+//   modes VB / AB: the two public routes batched over every ordered pair of names (see modeVB, modeAB)
 //   mode A: public route of the analyser: "x = y" (units warning) and the scale the analyser puts in front of a
 //           connected variable (AnalyserEquationAst)
 #include <cmath>
@@ -331,6 +332,122 @@ static std::string modeA(World &w, const std::string &n1, const std::string &n2)
     return r;
 }
 
+// ---- batched public routes: every ordered pair of the names of model 0 (and the parent-less standard units) at once
+
+static std::vector<std::string> pairNames(const World &w)
+{
+    std::vector<std::string> names;
+    for (size_t i = 0; i < w.tops.size(); ++i) {
+        if (w.topModel[i] == 0 || w.loose[w.topModel[i]]) {
+            names.push_back(w.tops[i]->name());
+        }
+    }
+    return names;
+}
+
+// VB: c1 holds v_i_j (units i), c2 holds w_i_j (units j), v_i_j ~ w_i_j; one Validator::validateModel call.
+// Output: one record "i_j:hint" per MAP_VARIABLES units issue (hint = the number after "multiplication factor of 10^", or none).
+static std::string modeVB(World &w)
+{
+    auto model = w.models.at(0);
+    auto names = pairNames(w);
+    auto c1 = Component::create("c1");
+    auto c2 = Component::create("c2");
+    model->addComponent(c1);
+    model->addComponent(c2);
+    for (size_t i = 0; i < names.size(); ++i) {
+        for (size_t j = 0; j < names.size(); ++j) {
+            std::string id = std::to_string(i) + "_" + std::to_string(j);
+            auto v = Variable::create("v_" + id);
+            auto x = Variable::create("w_" + id);
+            setUnitsOf(w, v, names[i]);
+            setUnitsOf(w, x, names[j]);
+            v->setInterfaceType("public");
+            x->setInterfaceType("public");
+            c1->addVariable(v);
+            c2->addVariable(x);
+            Variable::addEquivalence(v, x);
+        }
+    }
+    auto val = Validator::create();
+    val->validateModel(model);
+    std::string r = "n=" + std::to_string(names.size());
+    for (size_t k = 0; k < val->issueCount(); ++k) {
+        auto is = val->issue(k);
+        if (is->referenceRule() == Issue::ReferenceRule::MAP_VARIABLES_ELEMENT && is->item()->type() == CellmlElementType::MAP_VARIABLES) {
+            auto pair = is->item()->variablePair();
+            std::string n1 = pair->variable1()->name();
+            std::string hint = "none";
+            std::string d = is->description();
+            auto p = d.find("multiplication factor of 10^");
+            if (p != std::string::npos) {
+                hint = g17(strtod(d.c_str() + p + 28, nullptr));
+            }
+            r += " " + n1.substr(2) + ":" + hint;
+        }
+    }
+    return r;
+}
+
+// AB: one component with a_i_j (units i) = b_i_j (units j, initialised) for every ordered pair, plus a_i_r = b_i_r against a
+// fresh base unit (so that every units' own reduction is printed); one Analyser::analyseModel call.
+// Output: "errors=E n=N" and one record ";id#lhs#rhs" per units warning (the two halves of the description around " while ").
+static std::string modeAB(World &w)
+{
+    auto model = w.models.at(0);
+    auto names = pairNames(w);
+    auto ref = Units::create("zzref");
+    model->addUnits(ref);
+    auto c = Component::create("c");
+    model->addComponent(c);
+    std::string math = MATH_HEAD;
+    auto addEq = [&](const std::string &id, const std::string &n1, const std::string &n2) {
+        auto a = Variable::create("a_" + id);
+        auto b = Variable::create("b_" + id);
+        setUnitsOf(w, a, n1);
+        if (n2 == "zzref") {
+            b->setUnits(ref);
+        } else {
+            setUnitsOf(w, b, n2);
+        }
+        b->setInitialValue(1.0);
+        c->addVariable(a);
+        c->addVariable(b);
+        math += "<apply><eq/><ci>a_" + id + "</ci><ci>b_" + id + "</ci></apply>";
+    };
+    for (size_t i = 0; i < names.size(); ++i) {
+        for (size_t j = 0; j < names.size(); ++j) {
+            addEq(std::to_string(i) + "_" + std::to_string(j), names[i], names[j]);
+        }
+        addEq(std::to_string(i) + "_r", names[i], "zzref");
+    }
+    math += "</math>";
+    c->setMath(math);
+    auto an = Analyser::create();
+    an->analyseModel(model);
+    size_t errors = 0;
+    std::string recs;
+    for (size_t k = 0; k < an->issueCount(); ++k) {
+        auto is = an->issue(k);
+        if (is->level() == Issue::Level::ERROR) {
+            ++errors;
+        }
+        if (is->referenceRule() == Issue::ReferenceRule::ANALYSER_UNITS) {
+            std::string d = is->description();
+            auto p = d.find("'a_");
+            auto q = d.find(" = b_", p);
+            auto e = d.find(" are not equivalent. ");
+            auto wh = d.find(" while ", e);
+            if (p == std::string::npos || q == std::string::npos || e == std::string::npos || wh == std::string::npos) {
+                recs += ";?#" + d;
+                continue;
+            }
+            recs += ";" + d.substr(p + 3, q - p - 3) + "#" + d.substr(e + 21, wh - e - 21) + "#" + d.substr(wh + 7);
+        }
+    }
+    return "errors=" + std::to_string(errors) + " n=" + std::to_string(names.size()) + recs;
+}
+
 static std::string runCase(const std::string &line)
 {
     Tok tk;
@@ -342,6 +459,12 @@ static std::string runCase(const std::string &line)
     World w = build(tk);
     if (mode == "P") {
         return modeP(w);
+    }
+    if (mode == "VB") {
+        return modeVB(w);
+    }
+    if (mode == "AB") {
+        return modeAB(w);
     }
     tk.next(); // "@"
     std::string n1 = tk.next();
